@@ -4,10 +4,14 @@ from vf.rtc import runner, catalogue
 from contracts import interstitial_rt as I, vacancy_rt as V
 
 
+# a site whose only symmetry is a mirror with a normal tilted away from every axis (planar vector basis in a general orientation)
+EXTRA = ['mono-mirror-site-tilted-normal']
+
+
 def main(tier):
     rep = Report('C06', tier)
     n = len(catalogue.builders(tier, SEED))
-    runner.run(rep, 'VacancyMediated::contract', V.w_vacancy, [(cid, tier, SEED, 'C06') for cid in V.vac_ids(tier)], 'onsager/OnsagerCalc.py::VacancyMediated.Lij')
+    runner.run(rep, 'VacancyMediated::contract', V.w_vacancy, [(cid, tier, SEED, 'C06') for cid in V.vac_ids(tier) + EXTRA], 'onsager/OnsagerCalc.py::VacancyMediated.Lij')
 
     from vf import extract
     for rel, q in [('onsager/OnsagerCalc.py', 'VacancyMediated.maketracerpreene'), ('onsager/OnsagerCalc.py', 'VacancyMediated.Lij')]:
